@@ -811,6 +811,17 @@ func (e *Engine) modKeys(callee *ssa.Function, ml modLoc) ([]string, error) {
 	if ml.param >= len(callee.Params) {
 		return nil, fmt.Errorf("modifies: parameter index")
 	}
+	// `m[*]` with m a map-typed parameter: the contents of that map
+	if mt, isMap := callee.Params[ml.param].Type().Underlying().(*types.Map); isMap && ml.mapc && len(ml.via) == 1 && ml.via[0] == "" {
+		ks, err1 := e.Sorts.SortOf(mt.Key())
+		vs, err2 := e.Sorts.SortOf(mt.Elem())
+		if err1 != nil || err2 != nil {
+			return nil, fmt.Errorf("modifies: unsupported map type of %s", callee.Params[ml.param].Name())
+		}
+		ft := callee.Params[ml.param].Type()
+		return []string{e.regKey("MD:"+typeKey(ft.Underlying()), e.Sorts.ArrOf(SRef, e.Sorts.ArrOf(ks, SBool))),
+			e.regKey("MV:"+typeKey(ft.Underlying()), e.Sorts.ArrOf(SRef, e.Sorts.ArrOf(ks, vs)))}, nil
+	}
 	pt, ok := callee.Params[ml.param].Type().Underlying().(*types.Pointer)
 	if !ok {
 		return nil, fmt.Errorf("modifies: parameter %s is not a pointer", callee.Params[ml.param].Name())
@@ -1737,6 +1748,9 @@ func (f *frame) modRef(callee *ssa.Function, ml modLoc, arg *Val, st *State) (*T
 		return nil, unsupported("modifies through a symbolic (interior) pointer")
 	}
 	ref := arg.T
+	if _, isMap := callee.Params[ml.param].Type().Underlying().(*types.Map); isMap {
+		return ref, nil
+	}
 	var sval *Term // non-nil while the path is inside a struct VALUE (a struct-typed field)
 	et := callee.Params[ml.param].Type().Underlying().(*types.Pointer).Elem()
 	for _, v := range ml.via {
